@@ -6,6 +6,17 @@
 //   jflush                      flush()                         -> ok | <file events>
 //   jdump                       the in-memory document          -> doc:<hex of dump()>
 //   jreopen                     clean close + new instance on the same directory          -> doc:<hex of dump()>
+//   jsetjson <keyhex> <jsonhex> set(key, <parsed JSON value: numbers, arrays, nested objects>)   -> ok
+//   jbig keys|array|deep|string <n>   set() a document beyond a default ParseLimits bound: n keys k0..k(n-1); key "arr" = array of n
+//                               integers; key "deep" = n nested arrays; key "str" = string of n bytes                      -> ok
+//   jreopencmp                  dump(), clean close, new instance, dump() again, compared in the harness (documents too big to
+//                               print)  -> same size=<n> keys=<n> | differ before=<n> after=<n> afterdoc=<hex of the first 64 bytes>
+//   jbgflush <open|rename> <keyhex> <v1hex> <v2hex>   the flusher thread against the application thread, schedule forced: set(key, v1);
+//                               a SECOND thread calls tryFlushIfDirty() and is parked right before it opens (renames) <file>.tmp; the
+//                               application thread calls set(key, v2) and flush(); when flush() has returned (or after 150 ms: with
+//                               the save under _mutex the application blocks in set() until then) the second thread goes on
+//                               -> ok parked=<0|1> flushed_while_parked=<0|1>
+//   jfile                       the bytes of the store file on disk                            -> file:<hex> | file:none
 //   jimage <file|none> <tmp|none>   a new process on a crash image: destroy the store object WITHOUT letting it touch the image
 //                               (new directory), construct a fresh JsonFileStore on the image  -> doc:<hex of dump()>
 #include "kv_interpose.hpp"
@@ -14,6 +25,32 @@
 #undef private
 
 using iora::storage::JsonFileStore;
+using iora::parsers::Json;
+
+// ------------------------------------------------------------------ schedule gate of `jbgflush`
+namespace jg
+{
+static thread_local bool t_isBg = false;
+static std::atomic<bool> armed{false}, parked{false}, release{false}, timedOut{false};
+static std::atomic<int> at{0}; // 0 = open of <file>.tmp, 1 = rename of <file>.tmp
+static void hook(const char *what, const char *kind)
+{
+  if (!t_isBg || !armed.load() || std::strcmp(kind, "tmp") != 0) return;
+  if (std::strcmp(what, at.load() == 0 ? "open" : "rename") != 0) return;
+  armed = false;
+  parked = true;
+  auto t0 = std::chrono::steady_clock::now();
+  while (!release.load() && std::chrono::steady_clock::now() - t0 < std::chrono::milliseconds(150))
+    std::this_thread::sleep_for(std::chrono::microseconds(200));
+  timedOut = !release.load(); // the application thread did not get through set() + flush() while this thread was parked
+}
+static iora::parsers::ParseLimits noLimits()
+{
+  iora::parsers::ParseLimits l;
+  l.arrayItemsMax = l.membersMax = l.depthMax = l.stringLengthMax = std::numeric_limits<std::size_t>::max();
+  return l;
+}
+} // namespace jg
 
 int main()
 {
@@ -30,6 +67,8 @@ int main()
   std::string work = std::string(w) + "/jfs" + std::to_string(getpid());
   std::filesystem::create_directories(work);
   JsonFileStore::setFlushInterval(std::chrono::milliseconds(3600000));
+  kvh::g_freezeSteady = false; // the gate and the flusher's wait_for use the real monotonic clock
+  kvh::g_fileHook = jg::hook;
   std::unique_ptr<JsonFileStore> store;
   unsigned long counter = 0;
   std::string dir;
@@ -106,6 +145,101 @@ int main()
       {
         store->flush();
         ans = "ok | " + kvh::takeEvents();
+      }
+      else if (store && t.size() == 3 && t[0] == "jsetjson" && vh::ofHex(t[1], a) && vh::ofHex(t[2], b))
+      {
+        store->set(str(a), Json::parseOrThrow(str(b), jg::noLimits()));
+        ans = "ok";
+      }
+      else if (store && t.size() == 3 && t[0] == "jbig")
+      {
+        const unsigned long n = std::stoul(t[2]);
+        if (t[1] == "keys")
+        {
+          for (unsigned long i = 0; i < n; ++i) store->set("k" + std::to_string(i), std::string("v"));
+          ans = "ok";
+        }
+        else if (t[1] == "array")
+        {
+          Json arr = Json::array();
+          for (unsigned long i = 0; i < n; ++i) arr.push_back(Json(static_cast<std::int64_t>(i)));
+          store->set("arr", arr);
+          ans = "ok";
+        }
+        else if (t[1] == "deep")
+        {
+          Json v = Json(static_cast<std::int64_t>(7));
+          for (unsigned long i = 0; i < n; ++i)
+          {
+            Json outer = Json::array();
+            outer.push_back(std::move(v));
+            v = std::move(outer);
+          }
+          store->set("deep", v);
+          ans = "ok";
+        }
+        else if (t[1] == "string")
+        {
+          store->set("str", std::string(n, 'x'));
+          ans = "ok";
+        }
+      }
+      else if (store && t.size() == 1 && t[0] == "jreopencmp")
+      {
+        const Json before = store->_store; // compared with Json::operator== (member order of the hash map is not part of the document)
+        const std::size_t beforeSize = before.dump().size();
+        const std::size_t keys = before.size();
+        store.reset();
+        kvh::takeEvents();
+        store = std::make_unique<JsonFileStore>(kvh::g_base);
+        kvh::takeEvents();
+        const std::string after = store->_store.dump();
+        if (store->_store == before) ans = "same size=" + std::to_string(after.size()) + " keys=" + std::to_string(keys);
+        else
+          ans = "differ before=" + std::to_string(beforeSize) + " after=" + std::to_string(after.size()) + " afterdoc=" + vh::toHex(after.substr(0, 64));
+      }
+      else if (store && t.size() == 5 && t[0] == "jbgflush" && (t[1] == "open" || t[1] == "rename") && vh::ofHex(t[2], a) && vh::ofHex(t[3], b))
+      {
+        vh::Bytes c;
+        if (vh::ofHex(t[4], c))
+        {
+          store->set(str(a), str(b));
+          jg::at = t[1] == "open" ? 0 : 1;
+          jg::parked = false;
+          jg::release = false;
+          jg::timedOut = false;
+          jg::armed = true;
+          JsonFileStore *sp = store.get();
+          std::atomic<bool> done{false};
+          std::thread bg([&]()
+                         {
+                           jg::t_isBg = true;
+                           sp->tryFlushIfDirty();
+                           done = true;
+                         });
+          auto t0 = std::chrono::steady_clock::now();
+          while (!jg::parked.load() && !done.load() && std::chrono::steady_clock::now() - t0 < std::chrono::seconds(5))
+            std::this_thread::sleep_for(std::chrono::microseconds(200));
+          const bool wasParked = jg::parked.load();
+          store->set(str(a), str(c)); // blocks while the parked thread holds _mutex (the save under the lock)
+          store->flush();
+          jg::release = true;
+          bg.join();
+          const bool flushedWhileParked = wasParked && !jg::timedOut.load();
+          jg::armed = false;
+          kvh::takeEvents();
+          ans = std::string("ok parked=") + (wasParked ? "1" : "0") + " flushed_while_parked=" + (flushedWhileParked ? "1" : "0");
+        }
+      }
+      else if (store && t.size() == 1 && t[0] == "jfile")
+      { // the bytes of the store file on disk right now (what a new process would read)
+        std::ifstream f(kvh::g_base, std::ios::binary);
+        if (!f) ans = "file:none";
+        else
+        {
+          std::string c((std::istreambuf_iterator<char>(f)), std::istreambuf_iterator<char>());
+          ans = "file:" + vh::toHex(c);
+        }
       }
       else if (store && t.size() == 1 && t[0] == "jdump")
       {
